@@ -241,6 +241,7 @@ SNI = ["unset", "localhost", "other.test", "127.0.0.1"]
 CERTS = ["leaf-A-local", "leaf-A-other", "leaf-A-dnsonly", "leaf-B-local", "leaf-B-other", "leaf-self-local", "leaf-self-other"]
 ROUTE = ["direct", "proxy"]
 URLHOST = ["localhost", "127.0.0.1"]
+SSLVER = ["unset", "PROTOCOL_TLS", "PROTOCOL_TLSv1_2", "PROTOCOL_TLS_CLIENT"]
 SANS = {"local": {"localhost", "127.0.0.1"}, "other": {"other.test"}, "dnsonly": {"localhost"}}
 
 
@@ -294,17 +295,22 @@ def run(res, tier, seed, shard, nshards):
     for s in list(servers.values()) + [plain, proxy]:
         s.start()
     try:
-        combos = list(itertools.product(CERT_REQS, CHECK_HOST, TRUST, SNI, CERTS, ROUTE, URLHOST))
+        combos = list(itertools.product(CERT_REQS, CHECK_HOST, TRUST, SNI, CERTS, ROUTE, URLHOST, SSLVER))
+        if tier == "thorough":
+            # the ssl_version dimension is crossed fully only with the default route/url host
+            combos = [c for c in combos if c[7] == "unset" or (c[5] == "direct" and c[6] == "localhost")]
         if tier == "quick":
             essential = []
             for cert in CERTS:
                 for route in ROUTE:
                     for uh in URLHOST:
-                        essential.append(("unset", "unset", "none", "unset", cert, route, uh))
-                        essential.append(("unset", "unset", "ca_certs=A", "unset", cert, route, uh))
-                        essential.append(("none", "unset", "none", "unset", cert, route, uh))
-                    essential.append(("unset", "unset", "ca_certs=B+env-file=A", "unset", cert, route, "localhost"))
-                    essential.append(("unset", True, "ca_certs=A", "127.0.0.1", cert, route, "localhost"))
+                        essential.append(("unset", "unset", "none", "unset", cert, route, uh, "unset"))
+                        essential.append(("unset", "unset", "ca_certs=A", "unset", cert, route, uh, "unset"))
+                        essential.append(("none", "unset", "none", "unset", cert, route, uh, "unset"))
+                    essential.append(("unset", "unset", "ca_certs=B+env-file=A", "unset", cert, route, "localhost", "unset"))
+                    essential.append(("unset", True, "ca_certs=A", "127.0.0.1", cert, route, "localhost", "unset"))
+                    for sv in SSLVER[1:]:
+                        essential.append(("unset", "unset", "ca_certs=A", "unset", cert, route, "localhost", sv))
             r2 = random.Random(seed)
             sample = r2.sample(combos, 400)
             combos = essential + sample
@@ -325,7 +331,7 @@ def run(res, tier, seed, shard, nshards):
         H.scrub_env()
 
 
-def tls_case(res, W, P, servers, proxy, cert_reqs, check_host, trust, sni, cert, route, urlhost="localhost"):
+def tls_case(res, W, P, servers, proxy, cert_reqs, check_host, trust, sni, cert, route, urlhost="localhost", sslver="unset"):
     H.scrub_env()
     os.environ.pop("SSL_CERT_FILE", None)
     sslopt = {}
@@ -358,6 +364,9 @@ def tls_case(res, W, P, servers, proxy, cert_reqs, check_host, trust, sni, cert,
         os.environ["WEBSOCKET_CLIENT_CA_BUNDLE"] = P["cadirA"]
     if sni != "unset":
         sslopt["server_hostname"] = sni
+    if sslver != "unset" and trust != "context(A)":
+        # the protocol-version option must not change what is verified
+        sslopt["ssl_version"] = getattr(ssl, sslver)
     srv = servers[cert]
     while not srv.records.empty():
         srv.records.get()
@@ -396,7 +405,8 @@ def tls_case(res, W, P, servers, proxy, cert_reqs, check_host, trust, sni, cert,
         except queue.Empty:
             prec = None
     exp, chain, name, note = reference(cert_reqs, check_host, trust, sni, cert, urlhost)
-    case = {"cert_reqs": cert_reqs, "check_hostname": check_host, "trust": trust, "server_hostname": sni, "server_cert": cert, "route": route, "url_host": urlhost}
+    case = {"cert_reqs": cert_reqs, "check_hostname": check_host, "trust": trust, "server_hostname": sni, "server_cert": cert, "route": route, "url_host": urlhost,
+            "ssl_version": sslver}
     res.case(tuple(case.values()), nontrivial=True)
     res.count("tls_cases")
     res.count("accept_expected" if exp else "reject_expected")
